@@ -37,7 +37,7 @@ META = {
         "sigma12_len, and over the 36-symbol extended alphabet up to sigx_len; each tokenised with BUFSIZ = 1..len+1 "
         "and 4096; additionally every string over the 27-symbol alphabet up to seek_len is tokenised after seek(k) for every k "
         "(all buffer sizes again), and once more by ONE parser object that ran to end of input and was rewound with seek(0); "
-        "one token of 4095..9000 bytes of every lexical class (beyond the default buffer and CPython's 4300-digit int limit); "
+        "one token of 4095..9000 bytes of every lexical class (70000 bytes for strings, hex strings, names and comments) (beyond the default buffer and CPython's 4300-digit int limit); "
         "the token objects of every two runs are also compared with the library's own == (names and keywords are interned "
         "objects), also after 70000 distinct names were tokenised in the process; every string over the 27-symbol alphabet up to seek_len "
         "(and over the 13 steering symbols up to sigma12_len-1) once more with settings.STRICT=True (nothing but end of input may be signalled in either mode), and once more with the parser's "
@@ -401,7 +401,8 @@ def long_tokens():
     """one very long token of each lexical class (longer than the default buffer and than CPython's
     4300-digit int limit), between two short tokens"""
     for u in LONG_UNITS:
-        for n in LONG_LENGTHS:
+        # one token beyond 65535 bytes for the string, name and comment scanners (added after seeded defect C14_21, a 65535-byte cap, was missed)
+        for n in LONG_LENGTHS + ([70000] if u in (b"(s", b"/N", b"%c", b"<4") else []):
             head, fill = u[:-1], u[-1:]
             body = head + fill * n
             close = {b"(": b")", b"<": b">", b"%": b"\n"}.get(head[:1] if head else fill, b"")
